@@ -89,7 +89,7 @@ OSim(p, args, pick) ==
                         r == OSim(p.subs[1], <<q.carry, x>>, SubMap(<<IdxStr(i - 1)>>, pick))
                     IN  [carry |-> r.ret.k[1], subs |-> Append(q.subs, r), score |-> q.score + r.score, outs |-> Append(q.outs, r.ret.k[2])]
              fin == st[p.n]
-         IN  IT("scan", args, 0, fin.score, Tp(<<fin.carry, IF p.n = 0 THEN Nn ELSE Stack(fin.outs)>>), fin.subs, 0)
+         IN  IT("scan", args, 0, fin.score, Tp(<<fin.carry, IF p.n = 0 THEN Vc(<<>>) ELSE Stack(fin.outs)>>), fin.subs, 0)
 
 OR(it, w, disc, rt) == [it |-> it, w |-> w, disc |-> disc, rt |-> rt]
 
@@ -159,7 +159,7 @@ OUpd(p, it, args2, targs, cons, pick) ==
                     IN  [carry |-> r.it.ret.k[1], tc |-> r.rt, subs |-> Append(q.subs, r.it), score |-> q.score + r.it.score,
                          w |-> q.w + r.w, disc |-> q.disc @@ PrefixMap(ip, r.disc), outs |-> Append(q.outs, r.it.ret.k[2])]
              fin == st[p.n]
-         IN  OR(IT("scan", args2, 0, fin.score, Tp(<<fin.carry, IF p.n = 0 THEN Nn ELSE Stack(fin.outs)>>), fin.subs, 0),
+         IN  OR(IT("scan", args2, 0, fin.score, Tp(<<fin.carry, IF p.n = 0 THEN Vc(<<>>) ELSE Stack(fin.outs)>>), fin.subs, 0),
                 fin.w, fin.disc, TRUE)
 
 RECURSIVE ORegen(_, _, _, _, _, _)
@@ -197,7 +197,7 @@ ORegen(p, it, args2, targs, S, pick) ==
                     IN  [carry |-> r.it.ret.k[1], tc |-> r.rt, subs |-> Append(q.subs, r.it), score |-> q.score + r.it.score,
                          w |-> q.w + r.w, disc |-> q.disc @@ PrefixMap(ip, r.disc), outs |-> Append(q.outs, r.it.ret.k[2])]
              fin == st[p.n]
-         IN  OR(IT("scan", args2, 0, fin.score, Tp(<<fin.carry, IF p.n = 0 THEN Nn ELSE Stack(fin.outs)>>), fin.subs, 0),
+         IN  OR(IT("scan", args2, 0, fin.score, Tp(<<fin.carry, IF p.n = 0 THEN Vc(<<>>) ELSE Stack(fin.outs)>>), fin.subs, 0),
                 fin.w, fin.disc, TRUE)
 RECURSIVE SupportsRegen(_)
 SupportsRegen(p) == CASE p.k = "dist" -> TRUE
